@@ -116,6 +116,9 @@ func verifyFunction(l *Loaded, cs *Contracts, fn *ssa.Function, con *Contract) (
 	cov := e.addObl(fr, "cover-requires", "false", "preconditions are satisfiable", fn.Pos(), nil)
 	cov.Cover = true
 
+	if con.AllocLimit != nil {
+		e.allocLimit = e.compile(mkctx(entry, nil, "alloc_limit of "+res.Name), con.AllocLimit).T
+	}
 	// ghost assignments executed on entry
 	for _, eg := range con.Entry {
 		key, srt, _ := e.ghostKey(eg.Name)
